@@ -292,3 +292,258 @@ Qed.
 Corollary term_complete_full t : ctb t = true -> forall rest, nf_term rest = true ->
   ev (fun n => p_term n (y_term t ++ rest)) (t, rest).
 Proof. intros C. apply Gterm_full; [apply term_complete | exact C]. Qed.
+
+(* ------------------------------------------------------------------ canonical predicate expressions *)
+
+Definition lvl (e : pexpr) : nat :=
+  match e with PE_and _ _ => 4 | PE_if _ _ => 3 | PE_or _ _ => 2 | _ => 6 end.
+Definition is_termlike (e : pexpr) : bool := match e with PE_simple (SP_term _) => true | _ => false end.
+Definition csimple (sp : simplepred) : bool := match sp with SP_term t => ctb t | _ => true end.
+
+Fixpoint cpb (e : pexpr) : bool :=
+  match e with
+  | PE_simple sp => csimple sp
+  | PE_not a => cpb a && (lvl a =? 6)
+  | PE_and l r => cpb l && cpb r && (4 <? lvl l) && (4 <=? lvl r)
+  | PE_if l r => cpb l && cpb r && (3 <? lvl l) && (3 <=? lvl r)
+  | PE_or l r => cpb l && cpb r && (2 <? lvl l) && (2 <=? lvl r)
+  | PE_paren a => cpb a && negb (is_termlike a)
+  end.
+
+Definition hprec (ts : list tok) : nat :=
+  match hdk ts with Some R_COMMA => 4 | Some R_ARROW => 3 | Some R_SEMI => 2 | _ => 0 end.
+
+Lemma lvl_bounds e : 2 <= lvl e <= 6.
+Proof. destruct e; simpl; lia. Qed.
+Lemma hprec_le ts : hprec ts <= 4.
+Proof. unfold hprec. destruct (hdk ts) as [[]|]; lia. Qed.
+
+Lemma p_term_bad_start n k x r : tstart k = false -> p_term n ((k, x) :: r) = None.
+Proof. intros H. destruct n as [|[|n]]; try reflexivity. cbn [p_term p_prim]. destruct k; try discriminate; reflexivity. Qed.
+
+Lemma p_term_some_hd n ts x : p_term n ts = Some x -> exists k y r, ts = (k, y) :: r /\ tstart k = true.
+Proof.
+  intros H. destruct ts as [|[k y] r].
+  - destruct n as [|[|n]]; discriminate.
+  - destruct (tstart k) eqn:E; [eauto|]. rewrite p_term_bad_start in H by exact E. discriminate.
+Qed.
+
+Lemma simple_complete sp : csimple sp = true -> forall rest, nf_term rest = true ->
+  ev (fun n => p_simple n (y_simple sp ++ rest)) (sp, rest).
+Proof.
+  intros C rest Hf. destruct sp as [| | |t]; try (exists 0; intros n _; reflexivity).
+  destruct (term_complete_full t C rest Hf) as [n1 H1]. exists n1. intros n Hn.
+  unfold p_simple. cbn [y_simple]. rewrite !y_term_is_k by reflexivity. rewrite H1 by lia. reflexivity.
+Qed.
+
+(* a successful term reading is what the primary of a predicate expression returns *)
+Lemma term_as_pe_prim n ts u r2 : p_term n ts = Some (u, r2) ->
+  ev (fun m => p_pe_prim m ts) (PE_simple (SP_term u), r2).
+Proof.
+  intros H. destruct (p_term_some_hd _ _ _ H) as [k [y [r [-> Hk]]]].
+  exists (S n). intros m Hm. destruct m as [|m]; [lia|].
+  assert (Hm' : p_term m ((k, y) :: r) = Some (u, r2)) by (eapply p_term_mono; [|exact H]; lia).
+  cbn [p_pe_prim]. rewrite is_k_diff by (intros E0; rewrite <- E0 in Hk; discriminate).
+  destruct (is_k R_LPAR ((k, y) :: r)); [rewrite Hm'; reflexivity|].
+  unfold p_simple. rewrite !is_k_diff by (intros E0; rewrite <- E0 in Hk; discriminate). rewrite Hm'. reflexivity.
+Qed.
+
+Lemma expect_not k ts : hdk ts <> Some k -> expect k ts = None.
+Proof.
+  destruct ts as [|[k' x] r]; [reflexivity|]. simpl. intros H.
+  destruct (rname_eqb k k') eqn:E; [|reflexivity]. apply rname_eqb_eq in E. congruence.
+Qed.
+
+Lemma paren_none inner :
+  (forall n u r2, p_term n inner = Some (u, r2) -> hdk r2 <> Some R_RPAR) ->
+  forall n, p_term n (fx R_LPAR :: inner) = None.
+Proof.
+  intros H n. destruct n as [|[|n]]; try reflexivity. unfold fx. cbn [p_term p_prim].
+  destruct (p_term n inner) as [[u r2]|] eqn:E; [|reflexivity].
+  rewrite (expect_not _ _ (H _ _ _ E)). reflexivity.
+Qed.
+
+(* the leftmost primary of a predicate expression, and the tokens after it *)
+Fixpoint first_prim (e : pexpr) : pexpr :=
+  match e with PE_and l _ | PE_if l _ | PE_or l _ => first_prim l | _ => e end.
+Fixpoint after_first (e : pexpr) : list tok :=
+  match e with
+  | PE_and l r => after_first l ++ fx R_COMMA :: y_pe r
+  | PE_if l r => after_first l ++ fx R_ARROW :: y_pe r
+  | PE_or l r => after_first l ++ fx R_SEMI :: y_pe r
+  | _ => []
+  end.
+
+Definition is_optok (ts : list tok) : bool :=
+  match hdk ts with Some R_COMMA | Some R_ARROW | Some R_SEMI => true | _ => false end.
+
+Lemma after_first_hd e X : is_optok X = true -> is_optok (after_first e ++ X) = true.
+Proof.
+  intros HX. induction e; cbn [after_first app]; try exact HX; rewrite <- app_assoc; cbn [app];
+    match goal with |- is_optok (after_first ?l ++ ?Y) = true =>
+      destruct (after_first l) as [|t0 r0] eqn:E; [reflexivity|] end;
+    match goal with IH : is_optok ((?t :: ?r) ++ X) = true |- _ => destruct t as [k0 x0]; simpl in *; exact IH end.
+Qed.
+
+Lemma optok_not_rpar X : is_optok X = true -> hdk X <> Some R_RPAR.
+Proof. unfold is_optok. destruct (hdk X) as [[]|]; try discriminate; intros _ H; discriminate. Qed.
+Lemma optok_nf X : is_optok X = true -> nf_term X = true.
+Proof. unfold is_optok, nf_term. destruct (hdk X) as [[]|]; try discriminate; reflexivity. Qed.
+
+(* ------------------------------------------------------------------ completeness: predicate expressions *)
+
+Lemma ev_pe_of_prim ts p a r res :
+  ev (fun n => p_pe_prim n ts) (a, r) -> ev (fun n => p_pe_loop n p a r) res -> ev (fun n => p_pe n p ts) res.
+Proof.
+  intros [n1 H1] [n2 H2]. exists (S (n1 + n2)). intros n Hn. destruct n as [|n]; [lia|].
+  cbn [p_pe]. rewrite H1 by lia. apply H2. lia.
+Qed.
+
+Lemma ev_loop_stop p acc rest : hprec rest = 0 \/ hprec rest < p -> ev (fun n => p_pe_loop n p acc rest) (acc, rest).
+Proof.
+  intros H. exists 1. intros n Hn. destruct n as [|n]; [lia|]. cbn [p_pe_loop].
+  unfold hprec in H. rewrite !is_k_hdk. destruct (hdk rest) as [k|]; [|reflexivity].
+  destruct k; try reflexivity; simpl;
+    match goal with |- context [?a <=? ?b] => destruct (Nat.leb_spec a b); [exfalso; simpl in H; lia|reflexivity] end.
+Qed.
+
+Lemma ev_loop_and p acc b ts r' res : p <= 4 ->
+  ev (fun n => p_pe n 4 ts) (b, r') -> ev (fun n => p_pe_loop n p (PE_and acc b) r') res ->
+  ev (fun n => p_pe_loop n p acc (fx R_COMMA :: ts)) res.
+Proof.
+  intros Hp [n1 H1] [n2 H2]. exists (S (n1 + n2)). intros n Hn. destruct n as [|n]; [lia|].
+  unfold fx. cbn [p_pe_loop]. rewrite is_k_same. replace (p <=? 4) with true by (symmetry; apply Nat.leb_le; lia).
+  cbn [andb tl]. rewrite H1 by lia. apply H2. lia.
+Qed.
+Lemma ev_loop_if p acc b ts r' res : p <= 3 ->
+  ev (fun n => p_pe n 3 ts) (b, r') -> ev (fun n => p_pe_loop n p (PE_if acc b) r') res ->
+  ev (fun n => p_pe_loop n p acc (fx R_ARROW :: ts)) res.
+Proof.
+  intros Hp [n1 H1] [n2 H2]. exists (S (n1 + n2)). intros n Hn. destruct n as [|n]; [lia|].
+  unfold fx. cbn [p_pe_loop]. rewrite is_k_diff by discriminate. rewrite is_k_same.
+  replace (p <=? 3) with true by (symmetry; apply Nat.leb_le; lia).
+  cbn [andb tl]. rewrite H1 by lia. apply H2. lia.
+Qed.
+Lemma ev_loop_or p acc b ts r' res : p <= 2 ->
+  ev (fun n => p_pe n 2 ts) (b, r') -> ev (fun n => p_pe_loop n p (PE_or acc b) r') res ->
+  ev (fun n => p_pe_loop n p acc (fx R_SEMI :: ts)) res.
+Proof.
+  intros Hp [n1 H1] [n2 H2]. exists (S (n1 + n2)). intros n Hn. destruct n as [|n]; [lia|].
+  unfold fx. cbn [p_pe_loop]. rewrite !is_k_diff by discriminate. rewrite is_k_same.
+  replace (p <=? 2) with true by (symmetry; apply Nat.leb_le; lia).
+  cbn [andb tl]. rewrite H1 by lia. apply H2. lia.
+Qed.
+
+Definition PP (e : pexpr) : Prop := lvl e = 6 -> forall rest, nf_term rest = true ->
+  ev (fun n => p_pe_prim n (y_pe e ++ rest)) (e, rest).
+Definition LL (e : pexpr) : Prop := forall p rest res, p <= lvl e -> hprec rest < lvl e -> nf_term rest = true ->
+  ev (fun n => p_pe_loop n p e rest) res -> ev (fun n => p_pe n p (y_pe e ++ rest)) res.
+Definition NT (e : pexpr) : Prop := is_termlike e = false ->
+  forall n rest, p_term n (fx R_LPAR :: y_pe e ++ fx R_RPAR :: rest) = None.
+Definition FP (e : pexpr) : Prop := forall rest, nf_term rest = true ->
+  ev (fun n => p_pe_prim n (y_pe e ++ rest)) (first_prim e, after_first e ++ rest).
+Definition Gpe (e : pexpr) : Prop := cpb e = true -> PP e /\ LL e /\ NT e /\ FP e.
+
+Lemma LL_of_PP e : lvl e = 6 -> PP e -> LL e.
+Proof.
+  intros Hl P p rest res _ _ Hf Hres. eapply ev_pe_of_prim; [apply P; assumption | exact Hres].
+Qed.
+Lemma FP_of_PP e : first_prim e = e -> after_first e = [] -> lvl e = 6 -> PP e -> FP e.
+Proof. intros E1 E2 Hl P rest Hf. rewrite E1, E2. apply P; assumption. Qed.
+
+(* a term reading of `y_pe l` followed by an operator token never ends in front of a `)` *)
+Lemma term_reading_stops l X : FP l -> is_optok X = true ->
+  forall n u r2, p_term n (y_pe l ++ X) = Some (u, r2) -> hdk r2 <> Some R_RPAR.
+Proof.
+  intros F HX n u r2 H. apply term_as_pe_prim in H.
+  pose proof (ev_unique _ _ _ H (F X (optok_nf _ HX))) as E. injection E as _ ->.
+  apply optok_not_rpar. apply after_first_hd. exact HX.
+Qed.
+
+Lemma LL_full e : LL e -> forall rest, hprec rest = 0 -> nf_term rest = true ->
+  forall p, p <= lvl e -> ev (fun n => p_pe n p (y_pe e ++ rest)) (e, rest).
+Proof.
+  intros L rest Hh Hf p Hp. apply L; auto; [pose proof (lvl_bounds e); lia|]. apply ev_loop_stop. auto.
+Qed.
+
+Theorem pe_complete : forall e, Gpe e.
+Proof.
+  induction e as [sp|a IH|l IHl r IHr|l IHl r IHr|l IHl r IHr|a IH]; intros C; cbn [cpb] in C.
+  - (* simplepredicate *)
+    assert (P : PP (PE_simple sp)).
+    { intros _ rest Hf. destruct (simple_complete sp C rest Hf) as [n1 H1].
+      destruct sp as [| | |t].
+      1-3: (exists (S n1); intros n Hn; destruct n as [|n]; [lia|]; cbn [p_pe_prim y_pe y_simple app]; unfold fx;
+            rewrite !is_k_diff by discriminate; cbn [y_pe y_simple app] in H1; unfold fx in H1; rewrite H1 by lia; reflexivity).
+      destruct (term_complete_full t C rest Hf) as [n2 H2].
+      exists (S (n1 + n2)). intros n Hn. destruct n as [|n]; [lia|].
+      cbn [p_pe_prim y_pe y_simple]. rewrite y_term_is_k by reflexivity.
+      destruct (is_k R_LPAR (y_term t ++ rest)).
+      - rewrite H2 by lia. reflexivity.
+      - cbn [y_simple] in H1. rewrite H1 by lia. reflexivity. }
+    split; [exact P|]. split; [apply LL_of_PP; [reflexivity|exact P]|]. split.
+    + intros Ht n rest. destruct sp as [| | |t]; [| | |discriminate];
+        (apply paren_none; intros n0 u r2 H; cbn [y_pe y_simple app] in H; unfold fx in H;
+         rewrite p_term_bad_start in H by reflexivity; discriminate).
+    + apply FP_of_PP; auto.
+  - (* \+ *)
+    apply andb_true_iff in C as [Ca Hl]. apply Nat.eqb_eq in Hl.
+    destruct (IH Ca) as [_ [La _]].
+    assert (P : PP (PE_not a)).
+    { intros _ rest Hf.
+      assert (H5 : ev (fun n => p_pe n 5 (y_pe a ++ rest)) (a, rest)).
+      { apply La; [lia | pose proof (hprec_le rest); lia | exact Hf |]. apply ev_loop_stop. pose proof (hprec_le rest). lia. }
+      destruct H5 as [n1 H1]. exists (S n1). intros n Hn. destruct n as [|n]; [lia|].
+      cbn [y_pe app]. unfold fx. cbn [p_pe_prim]. rewrite is_k_same. cbn [tl]. rewrite H1 by lia. reflexivity. }
+    split; [exact P|]. split; [apply LL_of_PP; [reflexivity|exact P]|]. split.
+    + intros _ n rest. apply paren_none. intros n0 u r2 H. cbn [y_pe app] in H. unfold fx in H.
+      rewrite p_term_bad_start in H by reflexivity. discriminate.
+    + apply FP_of_PP; auto.
+  - (* , *)
+    apply andb_true_iff in C as [C H2]. apply andb_true_iff in C as [C H1]. apply andb_true_iff in C as [Cl Cr].
+    apply Nat.ltb_lt in H1. apply Nat.leb_le in H2.
+    destruct (IHl Cl) as [_ [Ll [_ Fl]]]. destruct (IHr Cr) as [_ [Lr _]].
+    split; [intros Hl; discriminate|]. split; [|split].
+    + intros p rest res Hp Hh Hf Hres. cbn [lvl] in Hp, Hh. cbn [y_pe]. nrm.
+      apply Ll; [lia | cbn; lia | reflexivity |].
+      apply ev_loop_and with (b := r) (r' := rest); [lia | | exact Hres].
+      apply Lr; [lia | lia | exact Hf |]. apply ev_loop_stop. right. lia.
+    + intros _ n rest. apply paren_none. cbn [y_pe]. nrm. apply term_reading_stops; [exact Fl | reflexivity].
+    + intros rest Hf. cbn [y_pe first_prim after_first]. nrm. apply Fl. reflexivity.
+  - (* -> *)
+    apply andb_true_iff in C as [C H2]. apply andb_true_iff in C as [C H1]. apply andb_true_iff in C as [Cl Cr].
+    apply Nat.ltb_lt in H1. apply Nat.leb_le in H2.
+    destruct (IHl Cl) as [_ [Ll [_ Fl]]]. destruct (IHr Cr) as [_ [Lr _]].
+    split; [intros Hl; discriminate|]. split; [|split].
+    + intros p rest res Hp Hh Hf Hres. cbn [lvl] in Hp, Hh. cbn [y_pe]. nrm.
+      apply Ll; [lia | cbn; lia | reflexivity |].
+      apply ev_loop_if with (b := r) (r' := rest); [lia | | exact Hres].
+      apply Lr; [lia | lia | exact Hf |]. apply ev_loop_stop. right. lia.
+    + intros _ n rest. apply paren_none. cbn [y_pe]. nrm. apply term_reading_stops; [exact Fl | reflexivity].
+    + intros rest Hf. cbn [y_pe first_prim after_first]. nrm. apply Fl. reflexivity.
+  - (* ; *)
+    apply andb_true_iff in C as [C H2]. apply andb_true_iff in C as [C H1]. apply andb_true_iff in C as [Cl Cr].
+    apply Nat.ltb_lt in H1. apply Nat.leb_le in H2.
+    destruct (IHl Cl) as [_ [Ll [_ Fl]]]. destruct (IHr Cr) as [_ [Lr _]].
+    split; [intros Hl; discriminate|]. split; [|split].
+    + intros p rest res Hp Hh Hf Hres. cbn [lvl] in Hp, Hh. cbn [y_pe]. nrm.
+      apply Ll; [lia | cbn; lia | reflexivity |].
+      apply ev_loop_or with (b := r) (r' := rest); [lia | | exact Hres].
+      apply Lr; [lia | lia | exact Hf |]. apply ev_loop_stop. right. lia.
+    + intros _ n rest. apply paren_none. cbn [y_pe]. nrm. apply term_reading_stops; [exact Fl | reflexivity].
+    + intros rest Hf. cbn [y_pe first_prim after_first]. nrm. apply Fl. reflexivity.
+  - (* ( predicateexpression ) where the bracketed text is not a term *)
+    apply andb_true_iff in C as [Ca Ht]. apply negb_true_iff in Ht.
+    destruct (IH Ca) as [_ [La [Na _]]].
+    assert (P : PP (PE_paren a)).
+    { intros _ rest Hf.
+      destruct (LL_full a La (fx R_RPAR :: rest) eq_refl eq_refl 0 ltac:(lia)) as [n1 H1].
+      exists (S n1). intros n Hn. destruct n as [|n]; [lia|].
+      cbn [y_pe]. nrm. pose proof (Na Ht n rest) as HN. unfold fx in *. cbn [p_pe_prim].
+      rewrite is_k_diff by discriminate. rewrite is_k_same. rewrite HN. cbn [tl]. rewrite H1 by lia.
+      rewrite expect_same. reflexivity. }
+    split; [exact P|]. split; [apply LL_of_PP; [reflexivity|exact P]|]. split.
+    + intros _ n rest. apply paren_none. intros n0 u r2 H. cbn [y_pe] in H. revert H. nrm. intros H.
+      rewrite (Na Ht n0 (fx R_RPAR :: rest)) in H. discriminate.
+    + apply FP_of_PP; auto.
+Qed.
